@@ -114,7 +114,14 @@ def bernese_sta(
 
             # ----+----1----+----2----+----3----+----4----+----5----+----6----+----7----+----8----+----9----+----0----+----1----+----2----+----3----+----4----+----5----+----6----+----7----+----8----+----9----+----0----+----1----+----2----+----3----
             # ARGI 10117M002        001  2008 09 25 00 00 00  2016 11 11 00 00 00  LEICA GRX1200GGPRO                  356103  356103  LEIAT504GG      LEIS                999999  999999    0.0000    0.0000    0.0000  Argir, Torshavn, FO     6.00       
-            for date_from , date_to in _pairwise(sorted(events.keys())):
+            # A record ends where an equipment entry ends without a successor (interruption or end of the history):
+            # otherwise the record would claim the equipment up to the next event also for the time without it.
+            dates = set(events.keys())
+            for hist in (rcv_hist, ant_hist, ecc_hist):
+                starts = {period[0] for period in hist.keys()}
+                dates.update(period[1] for period in hist.keys() if period[1] not in starts)
+
+            for date_from , date_to in _pairwise(sorted(dates)):
                 
                 rcv = _get_object_for_date(date_from, rcv_hist)                
                 if not rcv:
